@@ -91,10 +91,39 @@ def _judge_case(modname, desc, opts):
                 if not judge.atoms_in_order(d.msg, e.atoms):
                     viol("%s/atoms/%s" % (prop_sig, e.kind.split(":")[0]),
                          "message %r does not name %s in order" % (d.msg, e.atoms))
+            if opts.get("check_diag") or case.get("check_diag"):
+                for sig, what in diag_problems(d, e, r):
+                    viol("%s/%s" % (prop_sig, sig), what)
     if case.get("post"):
         # extra check-specific judgement: fn(case, rendered, model_result, obs) -> [(sig, what)]
         for sig, what in getattr(mod, case["post"])(case, r, res, obs):
             viol(sig, what)
+    return out
+
+
+def diag_problems(d, e, r):
+    """Format / context / stack-trace predicates of C17 on a parsed diagnostic `d`
+    against the model error `e` (rendered program `r`)."""
+    out = []
+    kind = e.kind.split(":")[0]
+    nlines = r.text.count("\n") + 1
+    if not (1 <= d.line <= nlines + 1):
+        out.append(("diag/line-range", "reported line %d is outside the script (%d lines)" % (d.line, nlines)))
+    if "\nt.sd:" in (d.msg or ""):
+        out.append(("diag/two-headers", "more than one located header line"))
+    bad = judge.internal_identifier(d.msg)
+    if bad:
+        out.append(("diag/internal-identifier", "message exposes an internal identifier %r: %r" % (bad, d.msg[:200])))
+    in_slot = e.kind.startswith("Slot:")
+    if not in_slot:
+        if (d.func or None) != (e.func or None):
+            out.append(("diag/context/" + kind, "header context is %r, innermost active function is %r" % (d.func, e.func)))
+    exp_stack = [(tuple(p) if p else None, c) for p, c in (e.stack or [])]
+    if any(p is None for p, _ in exp_stack):
+        if len(d.stack) != len(exp_stack) or [c for _, c in d.stack] != [c for _, c in exp_stack]:
+            out.append(("diag/stack-callers/" + kind, "stack trace callers %s, active calls %s" % ([c for _, c in d.stack], [c for _, c in exp_stack])))
+    elif d.stack != exp_stack:
+        out.append(("diag/stack/" + kind, "stack trace is %s, active calls (innermost first) are %s" % (d.stack, exp_stack)))
     return out
 
 
